@@ -379,7 +379,7 @@ func init() {
 	// R-ITERSTATE: iterator closures keep their cursor inside the closure.
 	core.Register(&core.Rule{
 		Name: "R-ITERSTATE",
-		Doc: "Iterators restart: a method that returns an iterator function (a closure taking a yield callback: AllIndex, All, AllString, AllStringIndex) must keep the traversal cursor inside the closure; the closure may not write variables captured from the enclosing method (stores through free variables). A cursor that lives in the method body belongs to the iterator value, so ranging over the same value twice, after a break, or nested yields a different sequence than FindAllIndex (C04).",
+		Doc: "Iterators restart: a method that returns an iterator function (a closure taking a yield callback: AllIndex, All, AllString, AllStringIndex) must keep the traversal cursor inside the closure; the closure may not write variables captured from the enclosing method: no store to a captured variable or to a field of one, and no call that hands a captured variable (or an object the enclosing method allocated and captured by pointer) to a callee that writes through that parameter (a cursor struct with a next method). A cursor that lives in the method body belongs to the iterator value, so ranging over the same value twice, after a break, or nested yields a different sequence than FindAllIndex (C04).",
 		Min: 2, NeedSSA: true,
 		Run: func(p *core.Prog) *core.RuleResult {
 			res := &core.RuleResult{}
@@ -394,14 +394,37 @@ func init() {
 						continue
 					}
 					o := core.Obligation{Key: "R-ITERSTATE|" + core.FuncName(an) + "|cursor is local to the traversal", Pos: p.Pos(an.Pos()), Nontrivial: true, Status: core.Discharged, Detail: "the iterator closure writes no variable captured from the enclosing method"}
+					ownAlloc := map[ssa.Value]bool{}
 					var check func(f *ssa.Function, outer map[ssa.Value]bool)
 					check = func(f *ssa.Function, outer map[ssa.Value]bool) {
 						for _, b := range f.Blocks {
 							for _, in := range b.Instrs {
 								if st, ok := in.(*ssa.Store); ok {
-									if fv, ok := st.Addr.(*ssa.FreeVar); ok && outer[fv] {
+									if fv := outerCell(st.Addr, outer); fv != nil {
 										o.Status = core.Violated
 										o.Detail = fmt.Sprintf("the iterator closure stores to the captured variable %s of the enclosing method (%s): the cursor survives between traversals of the same iterator value", fv.Name(), p.Pos(st.Pos()))
+									}
+								}
+								// the same through a helper: a captured variable of the enclosing method (or an object that method
+								// allocated and captured by pointer) is handed to a callee that writes through that parameter
+								if c, ok := in.(ssa.CallInstruction); ok {
+									cal := c.Common().StaticCallee()
+									if cal == nil || cal.Blocks == nil {
+										continue
+									}
+									for ai, a := range c.Common().Args {
+										fv := outerCell(a, outer)
+										if fv == nil {
+											if ld, isLd := a.(*ssa.UnOp); isLd && ld.Op == token.MUL {
+												if f2, isFV := ld.X.(*ssa.FreeVar); isFV && outer[f2] && ownAlloc[f2] {
+													fv = f2
+												}
+											}
+										}
+										if fv != nil && writesViaParam(cal, ai, 0) {
+											o.Status = core.Violated
+											o.Detail = fmt.Sprintf("the iterator closure hands the captured variable %s of the enclosing method to %s, which writes through it (%s): the cursor lives in the iterator value and survives between traversals", fv.Name(), core.FuncName(cal), p.Pos(c.Pos()))
+										}
 									}
 								}
 							}
@@ -410,6 +433,28 @@ func init() {
 					outer := map[ssa.Value]bool{}
 					for _, fv := range an.FreeVars {
 						outer[fv] = true
+					}
+					// captured cells that hold a pointer to an object the enclosing method allocated itself
+					for _, b := range fn.Blocks {
+						for _, ins := range b.Instrs {
+							mc, ok := ins.(*ssa.MakeClosure)
+							if !ok || mc.Fn != ssa.Value(an) {
+								continue
+							}
+							for k, bd := range mc.Bindings {
+								cell, ok := bd.(*ssa.Alloc)
+								if !ok || k >= len(an.FreeVars) || cell.Referrers() == nil {
+									continue
+								}
+								for _, r := range *cell.Referrers() {
+									if st, ok := r.(*ssa.Store); ok && st.Addr == ssa.Value(cell) {
+										if _, isAlloc := st.Val.(*ssa.Alloc); isAlloc {
+											ownAlloc[an.FreeVars[k]] = true
+										}
+									}
+								}
+							}
+						}
 					}
 					check(an, outer)
 					// nested closures (range-over-func bodies) capturing the same outer cells
@@ -435,6 +480,66 @@ func init() {
 			return res
 		},
 	})
+}
+
+// outerCell: addr is a captured variable of the set, or a field/element address inside one (no load in between).
+func outerCell(addr ssa.Value, outer map[ssa.Value]bool) *ssa.FreeVar {
+	for d := 0; d < 6; d++ {
+		switch x := addr.(type) {
+		case *ssa.FreeVar:
+			if outer[x] {
+				return x
+			}
+			return nil
+		case *ssa.FieldAddr:
+			addr = x.X
+		case *ssa.IndexAddr:
+			addr = x.X
+		default:
+			return nil
+		}
+	}
+	return nil
+}
+
+// writesViaParam: fn stores into memory reached from its parameter idx without a load in between (fields,
+// elements), itself or through a callee it hands the parameter to (two deep).
+func writesViaParam(fn *ssa.Function, idx, depth int) bool {
+	if fn == nil || fn.Blocks == nil || idx >= len(fn.Params) || depth > 2 {
+		return false
+	}
+	prm := ssa.Value(fn.Params[idx])
+	from := func(addr ssa.Value) bool {
+		for d := 0; d < 6; d++ {
+			switch x := addr.(type) {
+			case *ssa.FieldAddr:
+				addr = x.X
+			case *ssa.IndexAddr:
+				addr = x.X
+			default:
+				return addr == prm
+			}
+		}
+		return false
+	}
+	for _, b := range fn.Blocks {
+		for _, in := range b.Instrs {
+			switch x := in.(type) {
+			case *ssa.Store:
+				if from(x.Addr) {
+					return true
+				}
+			case ssa.CallInstruction:
+				cal := x.Common().StaticCallee()
+				for ai, a := range x.Common().Args {
+					if from(a) && writesViaParam(cal, ai, depth+1) {
+						return true
+					}
+				}
+			}
+		}
+	}
+	return false
 }
 
 func storeDescOf(addr ssa.Value) string {
